@@ -171,7 +171,15 @@ def rule_requeue_survives(ctx, rep):
     pat.require(keep, "hand-over instances vanished")
 
 
+def rule_child_adopts(ctx, rep):
+    """The worker callback queued before fork() has to be adopted by a live helper in the child (C16's child rules on the
+    call_rcu side: rebuild skipped only when no helper exists, new default before the stale ones are freed)."""
+    from . import c16
+    c16.rule_child(ctx, rep, "C14.child", callrcu_only=True)
+
+
 RULES = [
+    ("C14.child", rule_child_adopts),
     ("C14.lock", rule_lock),
     ("C14.handle", rule_handle),
     ("C14.worker", rule_worker),
